@@ -740,117 +740,133 @@ def rule_ab(chk, cx):
     chk.floor("ab-sym", 4, "spin-slot accumulation statements in nr_uks / nr_uks_nldf")
 
 
-def _const_sub(node):
-    """X[k]... -> (root Name id, k) for a subscript chain whose innermost index is a constant int"""
-    chain = []
-    while isinstance(node, ast.Subscript):
-        chain.append(node)
-        node = node.value
-    if not chain or not isinstance(node, ast.Name):
+class SepHooks(deg.ProgramHooks):
+    """literal powers of two carry the symbol T (and keep their numeric value for index arithmetic)"""
+    POW2 = {2: 1, 4: 2, 8: 3, 0.5: -1, 0.25: -2, 0.125: -3}
+
+    def constant(self, eng, node):
+        v = node.value
+        if isinstance(v, (int, float)) and not isinstance(v, bool) and v in self.POW2:
+            return Q(Deg.of(T=self.POW2[v]), Lin.const(v))
         return None
-    inner = chain[-1].slice
-    if isinstance(inner, ast.Constant) and isinstance(inner.value, int) and not isinstance(inner.value, bool):
-        return node.id, inner.value, len(chain)
-    return None
 
-
-def _factor_times(expr, root_ok):
-    """expr == c * X[k]...  or X[k]... -> (c, k) with c a Fraction"""
-    c = Fraction(1)
-    if isinstance(expr, ast.BinOp) and isinstance(expr.op, ast.Mult):
-        for lit, other in ((expr.left, expr.right), (expr.right, expr.left)):
-            if isinstance(lit, ast.Constant) and isinstance(lit.value, (int, float)) and not isinstance(lit.value, bool):
-                c, expr = Fraction(repr(float(lit.value))), other
-                break
-        else:
+    def resolve_call(self, eng, node, env):
+        if deg._dotted(node.func) in self.calls and deg._dotted(node.func) not in ("super", "hasattr"):
             return None
-    r = _const_sub(expr)
-    if r is None or not root_ok(r[0]):
-        return None
-    return c, r[1], r[2]
+        return super().resolve_call(eng, node, env)
 
 
 def rule_sep2(chk, cx):
-    """KernelEvalBase2.multiplicative/additive_baseline and the helpers they delegate to, SEP branch: E = 1/2 sum_s E[2 n_s]: ingredient k is doubled as 2**deg_k
-    (rho 1, sigma 2, tau 1) and the outputs are rescaled by 2**(-1) (energy) and 2**(deg_k - 1) (potentials)."""
-    tree = chk.tree
-    mod = tree.py(XE2)
-    # public entry points: the class that defines multiplicative_baseline / additive_baseline on a rho tuple
-    cname = cls = None
-    roots = []
-    for c in mod.body:
-        if isinstance(c, ast.ClassDef):
-            ms = pf.methods(c)
-            pub = [ms[k] for k in ("multiplicative_baseline", "additive_baseline") if k in ms]
-            if pub and cls is None:
-                cname, cls, roots = c.name, c, pub
-    if cls is None:
-        raise core.AnalysisError("no class with multiplicative_baseline/additive_baseline in %s" % XE2)
-    fn = roots[0]
-    # the anchored method plus the helpers it (transitively, two levels) delegates to
-    top = {f.name: f for f in mod.body if isinstance(f, ast.FunctionDef)}
-    meths = pf.methods(cls)
-    todo, funcs = [(r, 0) for r in roots], []
-    while todo:
-        f, d = todo.pop()
-        if any(f is g for g in funcs):
-            continue
-        funcs.append(f)
-        if d >= 3:
-            continue
-        for n in ast.walk(f):
-            if isinstance(n, ast.Call):
-                g = None
-                if isinstance(n.func, ast.Attribute) and isinstance(n.func.value, ast.Name) \
-                        and n.func.value.id in ("self", "cls", cname):
-                    g = meths.get(n.func.attr)
-                elif isinstance(n.func, ast.Name):
-                    g = top.get(n.func.id)
-                if g is not None:
-                    todo.append((g, d + 1))
+    """SEP libxc baseline of the second-generation kernels, through the public path
+    MappedDFTKernel2(..., mode="SEP", multiplicative_baseline).multiplicative_baseline(rho_tuple) with two spin
+    channels: the per-channel evaluation must receive, for channel s, row s of rho and tau and row 2*s of
+    sigma (rows aa, ab, bb), scaled by 2**deg (1, 2, 1); its outputs must land in the same rows rescaled by
+    1/2 * 2**deg.  Executed abstractly (rows carry distinct symbols, literal powers of two the symbol T), so
+    hand-written lines, comprehensions, zips over literal tuples and helper methods are all read alike."""
     in_deg = {0: 1, 1: 2, 2: 1}
     out_deg = {0: -1, 1: 0, 2: 1, 3: 0}
-    n_in = n_out = 0
-    qn = "%s.multiplicative_baseline (SEP)" % cname
-    for f in funcs:
-        params = {a.arg for a in f.args.args}
-        fq = pf.qualname(f)
-        for lp in [n for n in ast.walk(f) if isinstance(n, ast.For)]:
-            for n in ast.walk(lp):
-                if isinstance(n, ast.BinOp) and isinstance(n.op, ast.Mult):
-                    r = _factor_times(n, lambda root: root in params)
-                    if r is not None and r[2] >= 2 and r[1] in in_deg:
-                        c, k, _ = r
-                        n_in += 1
-                        want = Fraction(2) ** in_deg[k]
-                        inst = "%s: ingredient %d of the spin channel is scaled by %s" % (qn, k, c)
-                        if c == want:
-                            chk.ok("sep2", inst)
-                        else:
-                            chk.violation("sep2", XE2, fq, pf.src(n), n.lineno,
-                                          "ingredient %d (amplitude degree %d) of one spin channel is multiplied by "
-                                          "%s; E = 1/2 sum_s E[2 n_s] needs 2**%d = %s" % (k, in_deg[k], c, in_deg[k], want),
-                                          instance=inst)
-                if isinstance(n, ast.Assign) and len(n.targets) == 1 and isinstance(n.targets[0], ast.Subscript):
-                    t = _const_sub(n.targets[0])
-                    v = _factor_times(n.value, lambda root: True)
-                    if t is None or v is None or t[2] < 2 or v[2] != 1 or t[1] != v[1] or t[1] not in out_deg:
-                        continue
-                    c, k, _ = v
-                    n_out += 1
-                    want = Fraction(2) ** out_deg[k]
-                    inst = "%s: output %d of the spin channel is scaled by %s" % (qn, k, c)
-                    if c == want:
-                        chk.ok("sep2", inst)
-                    else:
-                        chk.violation("sep2", XE2, fq, pf.src(n), n.lineno,
-                                      "output %d of the doubled-density evaluation is multiplied by %s; the spin "
-                                      "relation needs %s (1/2 from the average times 2**deg of the chain rule)" % (
-                                          k, c, want), instance=inst)
-    if n_in < 2 or n_out < 2:
-        raise core.AnalysisError("%s: SEP scaling idiom not recognised in the method or its helpers (%d inputs, "
-                                 "%d outputs)" % (qn, n_in, n_out))
-    chk.floor("sep2", 3, "doubled ingredients + rescaled outputs of the SEP baseline")
+    names = {0: ["n_a", "n_b"], 1: ["g_aa", "g_ab", "g_bb"], 2: ["t_a", "t_b"]}
+    calls = []
+
+    def stub(eng, node, args, kwargs, env):
+        idx = len(calls)
+        calls.append((node, args[1] if len(args) > 1 else None))
+        n_in = len(args[1].items) if len(args) > 1 and isinstance(args[1], Tup) else 3
+        return Tup([Q(Deg.of(**{"o%d_%d" % (k, idx): 1})) for k in range(n_in + 1)])
+    s2 = deg.Session(chk.tree, [XE2, XE], calls={"get_libxc_baseline": stub}, hooks_cls=SepHooks)
+    s2.eng.add_policy = "left"
+    prog = s2.prog
+    cands = [c for m, c in prog.all_classes() if m.rel == XE2 and "__init__" in pf.methods(c)
+             and prog.find_method(m, c, "multiplicative_baseline") and len(pf.methods(c)["__init__"].args.args) >= 5]
+    if not cands:
+        raise core.AnalysisError("no kernel class with a multiplicative_baseline in %s" % XE2)
+    cname = cands[0].name
+    n_checked = 0
+    for ning in (3, 2):
+        del calls[:]
+        obj = s2.new(XE2, cname, lst(), Unk("feature_list"), K("SEP"), K("GGA_X_PBE"))
+        if not isinstance(obj, deg.Obj):
+            raise core.AnalysisError("%s: constructor could not be interpreted" % cname)
+        arrs = []
+        for k in range(ning):
+            a = rows(0, {i: Q(Deg.of(**{nm: 1})) for i, nm in enumerate(names[k])})
+            a.shape = Tup([num(2), sym("ngrid")])
+            a.n = len(names[k])
+            arrs.append(a)
+        res = s2.call(obj, "multiplicative_baseline", [Tup(arrs)])
+        fd = s2.hooks.method_of(obj, "multiplicative_baseline").fdef
+        qn = "%s.multiplicative_baseline" % cname
+        where = "%s(mode=SEP, %d ingredients)" % (qn, ning)
+        if len(calls) != 2:
+            raise core.AnalysisError("%s: expected one baseline evaluation per spin channel, observed %d" % (
+                where, len(calls)))
+        for sp, (node, tup) in enumerate(calls):
+            if not isinstance(tup, Tup) or len(tup.items) != ning:
+                raise core.AnalysisError("%s: the per-channel ingredient tuple could not be read (%s)" % (where, fmt(tup)))
+            st = node
+            while not isinstance(st, ast.stmt):
+                st = pf.parent(st)
+            for k, v in enumerate(tup.items):
+                want_row = names[k][2 * sp if k == 1 else sp]
+                inst = "%s: channel %d ingredient %d" % (where, sp, k)
+                if isinstance(v, Q) and v.is_rows and len(v.rows) == 1:
+                    v = list(v.rows.values())[0]          # a one-row slice r[s:s+1]
+                if not (isinstance(v, Q) and not v.is_rows and v.deg is not ANY):
+                    cx.nc += 1
+                    chk.note("sep2", where, "ingredient %d of channel %d not comparable: %s" % (k, sp, fmt(v)))
+                    continue
+                n_checked += 1
+                got_rows = sorted(x for x in v.deg.d if x != "T")
+                t = v.deg.get("T")
+                if got_rows != [want_row]:
+                    chk.violation("sep2", XE2, pf.qualname(pf.enclosing_func(node)), "ingredient %d of spin channel" % k,
+                                  node.lineno,
+                                  "for spin channel %d the baseline receives row %s of ingredient %d; the channel's own "
+                                  "row is %s (rho/tau: row s, sigma with rows aa, ab, bb: row 2*s)" % (
+                                      sp, got_rows, k, want_row), instance=inst)
+                elif t != Lin.const(in_deg[k]):
+                    chk.violation("sep2", XE2, pf.qualname(pf.enclosing_func(node)), "scale of ingredient %d" % k,
+                                  node.lineno,
+                                  "ingredient %d (amplitude degree %d) of one spin channel is multiplied by 2^(%s); "
+                                  "E = 1/2 sum_s E[2 n_s] needs 2^%d" % (k, in_deg[k], t, in_deg[k]), instance=inst)
+                else:
+                    chk.ok("sep2", inst + " = 2^%d * %s" % (in_deg[k], want_row))
+        outs = deg.items_of(res.value)
+        if outs is None or len(outs) != ning + 1:
+            cx.nc += 1
+            chk.note("sep2", where, "outputs not comparable: %s" % fmt(res.value))
+            continue
+        for k, o in enumerate(outs):
+            if not (isinstance(o, Q) and o.is_rows and o.axis == 0):
+                cx.nc += 1
+                chk.note("sep2", where, "output %d not comparable: %s" % (k, fmt(o)))
+                continue
+            for sp in range(2):
+                r = 2 * sp if k == 2 else sp
+                v = o.rows.get(r)
+                inst = "%s: output %d of channel %d" % (where, k, sp)
+                sym_ = "o%d_%d" % (k, sp)
+                if not (isinstance(v, Q) and not v.is_rows and v.deg is not ANY):
+                    chk.violation("sep2", XE2, qn, "output %d row of spin channel" % k, fd.lineno,
+                                  "output %d of spin channel %d is not stored in row %d of the result (rows written: "
+                                  "%s)" % (k, sp, r, sorted(o.rows)), instance=inst)
+                    continue
+                n_checked += 1
+                if v.deg.get(sym_) != Lin.const(1):
+                    chk.violation("sep2", XE2, qn, "output %d row of spin channel" % k, fd.lineno,
+                                  "row %d of output %d holds %s, not the result of spin channel %d" % (r, k, v.deg, sp),
+                                  instance=inst)
+                elif v.deg.get("T") != Lin.const(out_deg[k]):
+                    chk.violation("sep2", XE2, qn, "scale of output %d" % k, fd.lineno,
+                                  "output %d of the doubled-density evaluation is multiplied by 2^(%s); the spin relation "
+                                  "needs 2^(%d) (1/2 from the average times 2**deg of the chain rule)" % (
+                                      k, v.deg.get("T"), out_deg[k]), instance=inst)
+                else:
+                    chk.ok("sep2", inst + " = 2^(%d) * result, row %d" % (out_deg[k], r))
+    for m_ in s2.eng.mismatches:
+        chk.violation("sep2", m_.rel, m_.func, m_.stmt, m_.line, "degree mismatch %s vs %s in `%s`" % (m_.left, m_.right, m_.text))
+    cx.extra_visited |= set(s2.eng.visited)
+    chk.floor("sep2", 10, "ingredients and outputs of two spin channels for GGA and MGGA tuples")
 
 
 SPIN_RESOLVED = {
@@ -986,6 +1002,11 @@ def mutants(tree):
                "            nspin * np.einsum(", expect="amp"),
         Mutant("SEP baseline doubles sigma by 2 instead of 4", XE2, "tuple_s.append(4 * rho_tuple[1]", "tuple_s.append(2 * rho_tuple[1]",
                expect="sep2"),
+        Mutant("SEP baseline reads sigma row s instead of 2*s", XE2, "4 * rho_tuple[1][2 * s : 2 * s + 1]",
+               "4 * rho_tuple[1][s : s + 1]", expect="sep2"),
+        Mutant("SEP baseline stores vsigma in row s instead of 2*s", XE2, "sep_res[2][2 * s] = 2 * res[2]",
+               "sep_res[2][s] = 2 * res[2]", expect="sep2"),
+        Mutant("SEP baseline energy not halved", XE2, "sep_res[0][s] = 0.5 * res[0]", "sep_res[0][s] = res[0]", expect="sep2"),
         Mutant("SEP baseline vsigma not rescaled", XE2, "sep_res[2][2 * s] = 2 * res[2]", "sep_res[2][2 * s] = res[2]",
                expect="sep2"),
         Mutant("dzeta/drho_b uses rho[1]", BL, "vX0T[1, 0] -= vzfac * 2 * rho[0] / (rho[0] + rho[1]) ** 2",
